@@ -600,3 +600,55 @@ func staticReach(roots []*ssa.Function, pkgSuffix string) map[*ssa.Function]bool
 	}
 	return seen
 }
+
+// feasibleState is a tiny path-sensitive search over up to two boolean atoms. classify maps an If condition to an atom
+// (1 or 2; 0 = unrelated) and tells whether "condition true" means "atom true". The search explores the CFG from entry,
+// pruning edges that contradict what the path already decided, and calls hit(block, a1, a2) for every reached block with
+// the atoms' states (0 unknown, 1 true, 2 false). It returns true as soon as hit returns true.
+func feasibleState(fn *ssa.Function, classify func(cond ssa.Value) (atom int, trueMeansTrue bool), hit func(b *ssa.BasicBlock, a1, a2 int8) bool) bool {
+	type state struct {
+		b      *ssa.BasicBlock
+		a1, a2 int8
+	}
+	seen := map[state]bool{}
+	found := false
+	var dfs func(s state)
+	dfs = func(s state) {
+		if found || seen[s] {
+			return
+		}
+		seen[s] = true
+		if hit(s.b, s.a1, s.a2) {
+			found = true
+			return
+		}
+		last := s.b.Instrs[len(s.b.Instrs)-1]
+		if ifi, ok := last.(*ssa.If); ok {
+			a, pos := classify(ifi.Cond)
+			for i, succ := range s.b.Succs {
+				ns := state{succ, s.a1, s.a2}
+				if a != 0 {
+					val := int8(2)
+					if (i == 0) == pos {
+						val = 1
+					}
+					cur := &ns.a1
+					if a == 2 {
+						cur = &ns.a2
+					}
+					if *cur != 0 && *cur != val {
+						continue
+					}
+					*cur = val
+				}
+				dfs(ns)
+			}
+			return
+		}
+		for _, succ := range s.b.Succs {
+			dfs(state{succ, s.a1, s.a2})
+		}
+	}
+	dfs(state{fn.Blocks[0], 0, 0})
+	return found
+}
